@@ -70,7 +70,10 @@ func runC17(c *Ctx) {
 	toks := []string{"x", ":a b", ":", ":  lead", "123456789", ":é ü", "a b c", ":" + strings.Repeat("t", 300), "srv.example.org", "::x"}
 	for i := 0; i < 120*c.Scale; i++ {
 		in := map[string]string{"nick": c.Rng.Pick([]string{"me", "Nick[1]", "a"}), "check": "c17"}
-		in["collide"] = c.Rng.Pick([]string{"", "", "", "suffix:-x", "fixed:other", "empty", "fixed:"})
+		in["collide"] = c.Rng.Pick([]string{"", "", "", "suffix:-x", "fixed:other", "fixed:other", "empty", "fixed:", "suffix:"})
+		if c.Rng.Chance(15) {
+			in["notrack"] = "1"
+		}
 		var steps []string
 		registered := false
 		cur := in["nick"]
@@ -92,7 +95,9 @@ func runC17(c *Ctx) {
 				case in["collide"] == "":
 					cur += "_"
 				case strings.HasPrefix(in["collide"], "suffix:"):
-					cur += "-x"
+					cur += in["collide"][len("suffix:"):]
+				case strings.HasPrefix(in["collide"], "fixed:") && in["collide"] != "fixed:":
+					cur = in["collide"][len("fixed:"):] // the server then rejects the callback's value as well
 				}
 				if c.Rng.Chance(10) {
 					steps = append(steps, "R:srv 437 * #chan :Nick/channel is temporarily unavailable")
